@@ -600,6 +600,43 @@ def rule_r7(repo, run):
     run.floor(R, "default-argument / template orderings", n, 2)
 
 
+def rule_r8(repo, run):
+    R = run.rule("C08.R8", "a registry that keeps the first value stored under a name either builds the name from a template that "
+                           "carries {function_suffix}, or compares the stored value when the name is taken: overloads of one function "
+                           "do not share the abstract interface of a function pointer argument")
+    wf, am = repo.module("wrapf"), repo.module("ast")
+    fn = wf.func("Wrapf.add_abstract_interface")
+    opt = None
+    for a in ast.walk(fn):
+        if isinstance(a, ast.Attribute) and a.attr.endswith("_template") and "options" in ast.unparse(a.value):
+            opt = a.attr
+    if opt is None:
+        raise AnalysisError("C08.R8: add_abstract_interface no longer names the interface from an option template")
+    default = None
+    for k in ast.walk(am.tree):
+        if isinstance(k, ast.keyword) and k.arg == opt and pyflow.const_str(k.value):
+            default = pyflow.const_str(k.value)
+    if default is None:
+        raise AnalysisError("C08.R8: default of %s not found in ast.py" % opt)
+    stores = [a for a in ast.walk(fn) if isinstance(a, ast.Assign) and isinstance(a.targets[0], ast.Subscript)
+              and "f_abstract_interface" in ast.unparse(a.targets[0].value)]
+    if not stores:
+        raise AnalysisError("C08.R8: add_abstract_interface no longer stores into f_abstract_interface")
+    first_wins = any(("is None", True) in [(("is None" if " is None" in txt else txt), pol) for txt, pol in pyflow.path_atoms(a, stop=fn, seg=ast.unparse)]
+                     for a in stores)
+    collision = False
+    for i in ast.walk(fn):
+        if isinstance(i, ast.If) and any(isinstance(c, ast.Compare) and isinstance(c.ops[0], (ast.NotEq, ast.Eq))
+                                         and any(pyflow.is_name(x, "arg") for x in ast.walk(c)) for c in ast.walk(i.test)):
+            if any(isinstance(a, ast.Assign) and pyflow.is_name(a.targets[0], "name") for st in i.body + i.orelse for a in ast.walk(st)):
+                collision = True
+    ok = "{function_suffix}" in default or not first_wins or collision
+    run.check(R, "wrapf.Wrapf.add_abstract_interface:%s" % opt, ok,
+              "the interface is registered under `%s` (no {function_suffix}) and the first one stored under a name is kept without "
+              "looking at it: `int apply(int (*fn)(int), int)` and `double apply(double (*fn)(double), double)` both get "
+              "procedure(apply_fn) with the int signature" % default, wf.loc(fn))
+
+
 def run(repo, run, tier):
     rule_r1(repo, run)
     rule_r2(repo, run)
@@ -608,3 +645,4 @@ def run(repo, run, tier):
     rule_r5(repo, run)
     rule_x(repo, run)
     rule_r7(repo, run)
+    rule_r8(repo, run)
